@@ -526,7 +526,8 @@ def shard_binding(args):
             verdict, obs = run_case(case, distinfo)
             twin = {**case, "route": "seam"}
             twin_verdict, twin_obs = run_case(twin)
-            if summary(obs) != summary(twin_obs) or verdict != twin_verdict:
+            if summary(obs) != summary(twin_obs) or (
+                    (verdict and verdict[0]) != (twin_verdict and twin_verdict[0])):
                 raise SeamError(
                     "fake entry points and the real dist-info route disagree on %r:\n"
                     "dist-info: %r\nseam:      %r" % (case, summary(obs), summary(twin_obs)))
